@@ -238,6 +238,103 @@ def key_resolved(k, labels):
     return out
 
 
+# ----------------------------------------------------------------------------
+# minreal: root pools, exactness and separation guards
+#   a root is stored as a token "p/q" (rational) or a pair ["re", "im"] (Gaussian rational)
+# ----------------------------------------------------------------------------
+
+MR_SMALL = [F(x, 4) for x in range(-12, 13)]          # O(1) roots, separated by >= 1/4
+MR_MANT = [F(1), F(5, 4), F(3, 2), F(7, 4)]           # mantissas of the graded roots (rel. separation >= 1/8)
+MR_EPS = F(1, 2 ** 52)                                # float_info.epsilon
+MR_SQRT_EPS = F(1, 2 ** 26)                           # sqrt(float_info.epsilon), exactly
+MR_MARGIN = 1000                                      # distinct roots stay this factor outside the tolerance
+TOL_MR_WIDE = F(1, 10 ** 5)   # graded roots (worst measured: 2.0e-10 on 80 000 cases per class, 3.5e-10 in matrices)
+TOL_MR_REP = F(1, 10 ** 3)    # a survivor of a numerically split double root (worst measured 1.4e-7)
+
+
+def root_parts(t):
+    if isinstance(t, (list, tuple)):
+        return F(t[0]), F(t[1])
+    return F(t), F(0)
+
+
+def root_tok(re, im=0):
+    return tok(re) if im == 0 else [tok(re), tok(im)]
+
+
+def graded_root(rng, emin, emax):
+    """sign * mantissa * 2^e: any two distinct values differ by >= 1/8 of the larger magnitude"""
+    return rng.choice([1, -1]) * rng.choice(MR_MANT) * F(2) ** rng.randint(emin, emax)
+
+
+def cpoly(roots, lead=F(1)):
+    """lead * prod (X - r) for a conjugate-closed list of (re, im) roots: real coefficient list,
+    or None when an imaginary part survives"""
+    pr, pi = [F(lead)], [F(0)]
+    for (a, b) in roots:
+        qr = exact.padd(pr + [F(0)], [F(0)] + [-a * x for x in pr])
+        qr = exact.padd(qr, [F(0)] + [b * x for x in pi])
+        qi = exact.padd(pi + [F(0)], [F(0)] + [-a * x for x in pi])
+        qi = exact.padd(qi, [F(0)] + [-b * x for x in pr])
+        pr, pi = qr, qi
+    if any(x != 0 for x in pi):
+        return None
+    return pr
+
+
+def abs_poly(roots, lead):
+    """|lead| * prod (X + (|re| + |im|)): entrywise bound of the coefficient sums of products; the scale
+    against which a coefficient error is a relative perturbation of the roots"""
+    p = [abs(F(lead))]
+    for (a, b) in roots:
+        p = exact.pmul(p, [F(1), abs(a) + abs(b)])
+    return p
+
+
+def float_exact(p):
+    return all(F(float(c)) == c for c in p)
+
+
+def mr_tol2(z, tol):
+    """square of the tolerance the code uses for the zero z = (re, im)"""
+    if tol is not None and F(tol) != 0:
+        return F(tol) ** 2
+    a2 = z[0] ** 2 + z[1] ** 2
+    return 10 ** 6 * max(MR_EPS ** 2, a2 * MR_SQRT_EPS ** 2)
+
+
+def mr_separated(zeros, poles, tol, margin=MR_MARGIN):
+    """every zero is either equal to a pole or at least margin * tolerance away from it (exact), so that
+    the tolerance test only identifies equal roots (hypothesis `hclose` of minreal_sem)"""
+    if tol is not None and F(tol) != 0:
+        margin = min(margin, 100)       # explicit tolerances: 1/1000 on the 1/4 grid, 1/100 on integers
+    for z in zeros:
+        t2 = mr_tol2(z, tol) * margin ** 2
+        for q in poles:
+            if q != z and (z[0] - q[0]) ** 2 + (z[1] - q[1]) ** 2 < t2:
+                return False
+    return True
+
+
+def mr_survivors(zeros, poles):
+    """exact multiset difference: what minreal must leave when only equal roots cancel"""
+    ps = list(poles)
+    zs = []
+    for z in zeros:
+        if z in ps:
+            ps.remove(z)
+        else:
+            zs.append(z)
+    return zs, ps
+
+
+def mr_entries(case):
+    """entries (row-major) of a minreal case; a case in the old single-entry form is one entry"""
+    if "entries" in case:
+        return case["entries"]
+    return [{k: case[k] for k in ("num", "den", "zeros", "poles", "ncommon")}]
+
+
 class C15(Family):
     prop = "C15"
     externals = [
@@ -247,7 +344,9 @@ class C15(Family):
         "numpy.poly(A) (the model receives the coefficient list; contract p(A) = 0 with p monic of degree n, "
         "checked exactly by the driver on every call; Cayley-Hamilton proves it for the characteristic polynomial)",
         "numpy.roots (the model receives the root lists; contract num = num[0]*prod(X - z), checked exactly "
-        "by the driver on every call)"]
+        "by the driver on every call, over Q or Q(i))",
+        "numpy.real applied to numpy.poly of the surviving roots (the driver certifies that the exact "
+        "product has zero imaginary part, so real() is the identity on the model side)"]
     assumptions = [
         "results of solve-based routines are compared with a fixed relative tolerance (similarity 1e-9 with "
         "unimodular integer T, canonical forms 1e-8 under the generator's conditioning guard "
@@ -257,8 +356,16 @@ class C15(Family):
         "rows/columns), so that matrix_rank and det = 0 must agree",
         "the timebase of model_reduction results is not compared (C05)",
         "modal_form / bdschur are outside this property",
-        "minreal is exercised on rational roots only (ℚ driver), simple in numerator and denominator and "
-        "separated by >= 1/4"]
+        "minreal: roots are rational or Gaussian rational (conjugate pairs on the 1/4 grid); coefficient lists "
+        "are exactly representable as floats (generator guard); every zero is equal to a pole or at least 1000 "
+        "tolerances away from it (exact generator guard; 100 for explicit tolerances), and the driver "
+        "certifies on every call that the tolerance test identifies only equal roots among the roots of the "
+        "entry (hypothesis of minreal_sem_on); repeated roots (multiplicity <= 2, integers) only with the "
+        "explicit tolerance 1/100 because numpy.roots splits a double root by up to 5.5e-7",
+        "minreal results are compared coefficient by coefficient relative to |gain| * prod (X + |r|) over the "
+        "surviving roots (a relative perturbation of the roots): 1e-8 for O(1) and complex roots (worst "
+        "measured 6.2e-13), 1e-5 for roots spread over up to 2^54 (worst measured 3.5e-10 on 80 000 cases per "
+        "class), 1e-3 for a survivor of a split double root (worst measured 1.4e-7)"]
     rule = ("similarity: random integer systems (n 0..5, shapes {1,2,3}^2), unimodular integer T, timescale in "
             "{1,2,1/2,-1,3,...}, inverse flag, plus singular / wrong-shape T; canonical forms: SISO reachable "
             "(observable) integer systems of order 1..5 under a conditioning guard, plus structurally "
@@ -266,8 +373,13 @@ class C15(Family):
             "canonical_form; model_reduction: keep/elim of states, inputs, outputs spelled as int, name, list "
             "(mixed, list/tuple/ndarray), slice (negative steps), negative offsets, duplicates, custom labels, "
             "methods truncate/matchdc/other, singular A22, discrete systems; minreal: products of linear "
-            "factors with shared roots; non-trivial = the operation returns a system with states (or cancels "
-            "a factor)")
+            "factors with shared roots, in the classes small (1/4 grid in [-3,3], also no poles, improper, "
+            "explicit tolerances), bigzero / bigpole / bigboth (one or two roots of size 2^13..2^26 next to O(1) "
+            "dynamics, optionally shared), tiny (roots of size 2^-28..2^-6), log (every root m*2^e, e in "
+            "-14..14), repeated (multiplicity 2 on either side, explicit tolerance), complex (conjugate pairs, "
+            "distinct roots sharing real part / imaginary part / modulus), mimo (1x2..3x2 matrices mixing the "
+            "classes, one tolerance argument); 20 cases of every class in every quick run; non-trivial = the "
+            "operation returns a system with states (or cancels a factor)")
 
     # ---- generation ---------------------------------------------------------
     def rand_sys(self, rng, n, p, m, dt=None, lo=-3, hi=3, sparse=0.0):
@@ -498,31 +610,144 @@ class C15(Family):
             kind = "singular-A22"
         return {"op": "red", "sys": s, "labels": labels, "keys": keys, "method": method, "kind": kind}
 
-    def gen_minreal(self, rng):
-        pool = [F(x, 4) for x in range(-12, 13)]        # roots separated by >= 1/4
-        rng.shuffle(pool)
-        nz, npole = rng.randint(0, 4), rng.randint(1, 4)
-        ncommon = rng.randint(0, min(nz, npole))
-        common = pool[:ncommon]
-        zs = common + pool[ncommon:nz]
-        ps = common + pool[4:4 + npole - ncommon]
+    # minreal ------------------------------------------------------------------
+    MR_CLASSES = ["small", "small", "bigzero", "bigzero", "bigpole", "bigboth", "tiny", "log", "repeated",
+                  "complex", "complex", "mimo", "mimo"]
+
+    def mr_roots(self, rng, cls):
+        """(zeros, poles, tol) for one entry of class `cls`: lists of exact (re, im) roots"""
+        small = list(MR_SMALL)
+        rng.shuffle(small)
+        tol = rng.choice([None, None, None, "0"])
+        if cls == "small":
+            nz, npole = rng.randint(0, 4), rng.randint(0, 4)
+            ncommon = rng.randint(0, min(nz, npole))
+            zs = small[:ncommon] + small[ncommon:nz]
+            ps = small[:ncommon] + small[4:4 + npole - ncommon]
+            tol = rng.choice([None, None, None, "1/1000", "1/1000000", "0"])
+            return [(z, F(0)) for z in zs], [(q, F(0)) for q in ps], tol
+        if cls in ("bigzero", "bigpole", "bigboth", "tiny"):
+            # a few roots that are many orders of magnitude larger (smaller) than the O(1) dynamics
+            rg = (-28, -6) if cls == "tiny" else (13, 26)
+            nsz, nsp = rng.randint(0, 3), rng.randint(0, 3)
+            ncommon = rng.randint(0, min(nsz, nsp))
+            zs = small[:ncommon] + small[ncommon:nsz]
+            ps = small[:ncommon] + small[4:4 + nsp - ncommon]
+            far = []
+            while len(far) < 4:
+                r = graded_root(rng, *rg)
+                if r not in far:
+                    far.append(r)
+            side = {"bigzero": "z", "bigpole": "p"}.get(cls) or rng.choice(["z", "p", "zp", "zp"])
+            if "z" in side:
+                zs += far[:rng.randint(1, 2)]
+            if "p" in side:
+                ps += far[2:2 + rng.randint(1, 2)]
+            if side == "zp" and rng.random() < 0.5:         # a far root shared by both
+                ps.append(zs[-1])
+            return [(z, F(0)) for z in zs], [(q, F(0)) for q in ps], tol
+        if cls == "log":                                    # every root on its own scale
+            pool = []
+            while len(pool) < 8:
+                r = graded_root(rng, -14, 14)
+                if r not in pool:
+                    pool.append(r)
+            nz, npole = rng.randint(0, 4), rng.randint(0, 4)
+            ncommon = rng.randint(0, min(nz, npole))
+            zs = pool[:ncommon] + pool[ncommon:nz]
+            ps = pool[:ncommon] + pool[4:4 + npole - ncommon]
+            return [(z, F(0)) for z in zs], [(q, F(0)) for q in ps], tol
+        if cls == "repeated":
+            # integer roots, multiplicity <= 2 on either side: each zero may cancel ONE pole.  numpy.roots
+            # splits a double root by up to 5.5e-7 here, which is too close to the default tolerance
+            # (1.5e-5 |z|), so the class is run with an explicit tolerance 1/100 (roots >= 1 apart).
+            pool = [F(x) for x in range(-5, 6)]
+            rng.shuffle(pool)
+            zs, ps = [], []
+            for r in pool[:rng.randint(1, 3)]:
+                mz, mp = rng.choice([(1, 2), (2, 1), (2, 2), (2, 0), (0, 2), (1, 1), (1, 0), (0, 1)])
+                zs += [r] * mz
+                ps += [r] * mp
+            return [(z, F(0)) for z in zs[:4]], [(q, F(0)) for q in ps[:4]], "1/100"
+        if cls == "complex":
+            # conjugate pairs a +- b i (a, b on the 1/4 grid, b > 0) and real roots.  Half of the cases are
+            # built around one pair so that distinct roots share the real part, the imaginary part or the
+            # modulus (a test on only one of them would cancel them)
+            def pick():
+                if rng.random() < 0.6:
+                    return (F(rng.randint(-8, 8), 4), F(rng.randint(1, 8), 4))
+                return (F(rng.randint(-12, 12), 4), F(0))
+            pool = []
+            if rng.random() < 0.5:
+                a, b = F(rng.randint(-8, 8), 4), F(rng.randint(1, 8), 4)
+                b2 = rng.choice([x for x in range(1, 9) if F(x, 4) != b])
+                a2 = rng.choice([x for x in range(-8, 9) if F(x, 4) != a])
+                near = [(a, F(b2, 4)), (F(a2, 4), b), (a, F(0)), (-a, b)]
+                if a > 0 and a != b:
+                    near.append((b, a))                     # same modulus
+                if (a, b) in ((F(3, 4), F(1)), (F(-3, 4), F(1))):
+                    near.append((a / abs(a), F(3, 4)))
+                rng.shuffle(near)
+                pool = [(a, b)]
+                for r in near:
+                    if r not in pool:
+                        pool.append(r)
+                if rng.random() < 0.5:                      # which of them is shared, which are distinct
+                    pool[0], pool[1] = pool[1], pool[0]
+            while len(pool) < 6:
+                r = pick()
+                if r not in pool:
+                    pool.append(r)
+            nz, npole = rng.randint(0, 2), rng.randint(1, 2)
+            ncommon = rng.randint(0, min(nz, npole))
+            zs = pool[:ncommon] + pool[ncommon:nz]
+            ps = pool[:ncommon] + pool[3:3 + npole - ncommon]
+            close = lambda v: [x for (a, b) in v for x in ([(a, b), (a, -b)] if b else [(a, b)])]
+            return close(zs), close(ps), rng.choice([None, None, "0", "1/1000"])
+        raise ValueError(cls)
+
+    def mr_entry(self, rng, cls):
+        """one matrix entry: exact coefficient lists that are exactly representable as floats, root lists
+        satisfying the separation guard; None when the draw has to be repeated"""
+        zs, ps, tol = self.mr_roots(rng, cls)
+        if len(zs) > 5 or len(ps) > 5:
+            return None
+        g = F(rng.choice([1, 2, -1, 3, F(1, 2), -2, 5]))
+        if rng.random() < 0.05:
+            g, zs = F(0), []
+        d0 = F(rng.choice([1, 1, 2, -1, 4]))
+        num, den = cpoly(zs, g), cpoly(ps, d0)
+        if num is None or den is None or not (float_exact(num) and float_exact(den)):
+            return None
+        if not mr_separated(zs, ps, tol):
+            return None
+        kept = mr_survivors(zs, ps)
         rng.shuffle(zs)
         rng.shuffle(ps)
-        g = F(rng.choice([1, 2, -1, 3, F(1, 2), -2, 5]))
-        if rng.random() < 0.06:
-            g = F(0)
-        num = [g]
-        for z in zs:
-            num = exact.pmul(num, [F(1), -z])
-        d0 = F(rng.choice([1, 1, 2, -1, 4]))
-        den = [d0]
-        for pp in ps:
-            den = exact.pmul(den, [F(1), -pp])
-        if g == 0:
-            num, zs = [F(0)], []
-        tol = rng.choice([None, None, None, "1/1000", "1/1000000", "0"])
-        return {"op": "minreal", "num": toks(num), "den": toks(den), "zeros": toks(zs), "poles": toks(ps),
-                "tol": tol, "dt": rng.choice(["C", "C", "N", "T", DT01]), "ncommon": ncommon}
+        return {"num": toks(num), "den": toks(den), "zeros": [root_tok(*z) for z in zs],
+                "poles": [root_tok(*q) for q in ps], "ncommon": len(zs) - len(kept[0]), "cls": cls}, tol
+
+    def gen_minreal(self, rng, cls=None):
+        cls = cls or rng.choice(self.MR_CLASSES)
+        dt = rng.choice(["C", "C", "N", "T", DT01])
+        for _ in range(200):
+            if cls != "mimo":
+                r = self.mr_entry(rng, cls)
+                if r is None:
+                    continue
+                return {"op": "minreal", "p": 1, "m": 1, "entries": [r[0]], "tol": r[1], "dt": dt, "cls": cls}
+            # MIMO: entries of different classes in one matrix, one tolerance argument for all of them
+            p_, m_ = rng.choice([(1, 2), (2, 1), (2, 2), (2, 3), (3, 2)])
+            ents, tol = [], rng.choice([None, None, "0"])
+            while len(ents) < p_ * m_:
+                r = self.mr_entry(rng, rng.choice(["small", "small", "bigzero", "bigpole", "tiny", "log", "complex"]))
+                if r is None or (r[1] not in (None, "0")):
+                    continue
+                ents.append(r[0])
+            return {"op": "minreal", "p": p_, "m": m_, "entries": ents, "tol": tol, "dt": dt, "cls": cls}
+        e = {"num": ["1", "1"], "den": ["1", "3", "2"], "zeros": ["-1"], "poles": ["-1", "-2"], "ncommon": 1,
+             "cls": "small"}
+        return {"op": "minreal", "p": 1, "m": 1, "entries": [e], "tol": None, "dt": dt, "cls": "small"}
 
     def generate(self, rng, tier):
         n = 700 if tier == "quick" else 20000
@@ -537,6 +762,11 @@ class C15(Family):
                 out.append(self.gen_red(rng))
             else:
                 out.append(self.gen_minreal(rng))
+        # minreal input classes (root magnitudes, multiplicities, complex pairs, matrices): every class
+        # is present in every run
+        per = 20 if tier == "quick" else 450
+        for cls in self.MR_CLASSES:
+            out.extend(self.gen_minreal(rng, cls) for _ in range(per))
         return out
 
     def corpus(self):
@@ -544,6 +774,12 @@ class C15(Family):
               "B": toks([1, 0, 1]), "C": toks([1, 1, 0]), "D": toks([2])}
         lab = [["x[0]", "x[1]", "x[2]"], ["u[0]"], ["y[0]"]]
         N = {"t": "N"}
+
+        def mr(zs, ps, cls, tol=None, g=2):
+            zs, ps = [(F(a), F(b)) for a, b in zs], [(F(a), F(b)) for a, b in ps]
+            e = {"num": toks(cpoly(zs, g)), "den": toks(cpoly(ps, 1)), "zeros": [root_tok(*z) for z in zs],
+                 "poles": [root_tok(*q) for q in ps], "ncommon": len(zs) - len(mr_survivors(zs, ps)[0]), "cls": cls}
+            return {"op": "minreal", "p": 1, "m": 1, "entries": [e], "tol": tol, "dt": "C", "cls": cls}
         keys = lambda **kw: dict({k: N for k in ("es", "ks", "ei", "ki", "eo", "ko")}, **kw)
         return [
             {"op": "red", "sys": s3, "labels": lab, "keys": keys(es={"t": "L", "v": [["I", -1]], "as": "list"}),
@@ -556,6 +792,15 @@ class C15(Family):
              "Tas": "array", "ckind": "float", "kind": "unimodular"},
             {"op": "canon", "form": "reachable", "via": "direct", "sys": s3, "kind": "regular"},
             {"op": "canon", "form": "observable", "via": "canonical_form", "sys": s3, "kind": "regular"},
+            # minreal, one minimised case per input class that a seeded change needed (C15-m3 and its
+            # neighbours: tolerance taken from the largest zero / pole, all matching poles deleted, test on
+            # the real part only, absolute tolerance)
+            mr([(1.75, 0), (327680, 0)], [(2.5, 0)], "bigzero"),
+            mr([(-1, 0), (-2097152, 0)], [(-1, 0), (-3, 0), (-10, 0)], "bigzero"),
+            mr([(-1, 0)], [(-3, 0), (-2097152, 0)], "bigpole"),
+            mr([(2, 0)], [(2, 0), (2, 0), (5, 0)], "repeated", tol="1/100"),
+            mr([(-1, 2), (-1, -2)], [(-1, 1), (-1, -1), (-1, 2), (-1, -2)], "complex"),
+            mr([(F(1, 2 ** 20), 0)], [(F(5, 2 ** 22), 0), (-1, 0)], "tiny"),
         ]
 
     # ---- execution ----------------------------------------------------------
@@ -578,8 +823,18 @@ class C15(Family):
                 " ".join(key_tokens(k[x]) for x in ("es", "ks", "ei", "ki", "eo", "ko")), case["method"])
         if op == "minreal":
             f = lambda v: ("%d %s" % (len(v), " ".join(v))) if v else "0"
-            return "c15 minreal %s %s %s %s %s" % (f(case["num"]), f(case["den"]), f(case["zeros"]),
-                                                   f(case["poles"]), case["tol"] if case["tol"] else "_")
+            out = []
+            for e in mr_entries(case):
+                roots = [root_parts(t) for t in e["zeros"] + e["poles"]]
+                if any(b != 0 for (_, b) in roots):         # Gaussian-rational roots: the model runs over Q(i)
+                    g = lambda v: "".join(" %s %s" % (tok(root_parts(t)[0]), tok(root_parts(t)[1])) for t in v)
+                    out.append("c15 minrealc %s %s %d%s %d%s %s" % (
+                        f(e["num"]), f(e["den"]), len(e["zeros"]), g(e["zeros"]), len(e["poles"]), g(e["poles"]),
+                        case["tol"] if case["tol"] else "_"))
+                else:
+                    out.append("c15 minreal %s %s %s %s %s" % (f(e["num"]), f(e["den"]), f(e["zeros"]),
+                                                              f(e["poles"]), case["tol"] if case["tol"] else "_"))
+            return out
         raise ValueError(op)
 
     def impl(self, case):
@@ -626,12 +881,23 @@ class C15(Family):
                     method=case["method"], warn_unstable=False)
                 return {"ok": canon_ss(r)}
             if op == "minreal":
-                g = ct.tf([float(F(x)) for x in case["num"]], [float(F(x)) for x in case["den"]],
-                          dt_value(case["dt"]))
+                ents = mr_entries(case)
+                p_, m_ = case.get("p", 1), case.get("m", 1)
+                fl = lambda v: [float(F(x)) for x in v]
+                if (p_, m_) == (1, 1):
+                    g = ct.tf(fl(ents[0]["num"]), fl(ents[0]["den"]), dt_value(case["dt"]))
+                else:
+                    g = ct.tf([[fl(ents[i * m_ + j]["num"]) for j in range(m_)] for i in range(p_)],
+                              [[fl(ents[i * m_ + j]["den"]) for j in range(m_)] for i in range(p_)],
+                              dt_value(case["dt"]))
                 tol = None if case["tol"] is None else float(F(case["tol"]))
                 r = g.minreal(tol) if case["tol"] is not None else g.minreal()
-                return {"ok": {"num": toks([fr(x) for x in r.num_array[0, 0]]),
-                               "den": toks([fr(x) for x in r.den_array[0, 0]]), "dt": exact.dt_canon(r.dt)}}
+                if (r.noutputs, r.ninputs) != (p_, m_):
+                    return {"ok": {"shape": [r.noutputs, r.ninputs]}}
+                return {"ok": {"entries": [{"num": toks([fr(x) for x in r.num_array[i, j]]),
+                                            "den": toks([fr(x) for x in r.den_array[i, j]])}
+                                           for i in range(p_) for j in range(m_)],
+                               "dt": exact.dt_canon(r.dt)}}
         except ValueError as e:
             if "non-finite" in str(e):
                 return {"ok": {"nonfinite": True}}
@@ -639,14 +905,22 @@ class C15(Family):
         raise ValueError(op)
 
     def parse_model(self, case, out):
+        if case["op"] == "minreal":
+            outs = out if isinstance(out, list) else [out]
+            ents = []
+            for o in outs:
+                if o.startswith("err "):
+                    return {"err": o.split()[1]}
+                tk = Tokens(o)
+                assert tk.next() == "ok"
+                num = [tok(x) for x in tk.rats()]
+                den = [tok(x) for x in tk.rats()]
+                ents.append({"num": num, "den": den})
+            return {"ok": {"entries": ents}}
         if out.startswith("err "):
             return {"err": out.split()[1]}
         tk = Tokens(out)
         assert tk.next() == "ok"
-        if case["op"] == "minreal":
-            num = [tok(x) for x in tk.rats()]
-            den = [tok(x) for x in tk.rats()]
-            return {"ok": {"num": num, "den": den}}
         assert tk.next() == "ss"
         n, p, m, dt = tk.nat(), tk.nat(), tk.nat(), tk.next()
         o = {"n": n, "p": p, "m": m, "dt": dt}
@@ -845,32 +1119,93 @@ class C15(Family):
                        self.features(case, "value", **extra))
 
     # minreal ---------------------------------------------------------------------
-    def cmp_minreal(self, case, a, b):
-        if len(a["num"]) == len(b["num"]) and len(a["den"]) == len(b["den"]) and \
-                self.close_m(a["num"], b["num"], TOL_MR) and self.close_m(a["den"], b["den"], TOL_MR):
-            if a.get("dt") != case["dt"]:
-                return Verdict(VIOLATES, "timebase changed", self.features(case, "dt"))
-            return Verdict(AGREE)
-        # property: same rational function as the original?
-        n0, d0 = [F(x) for x in case["num"]], [F(x) for x in case["den"]]
-        n1, d1 = [F(x) for x in a["num"]], [F(x) for x in a["den"]]
-        for s in POINTS[:len(n0) + len(d0) + 2]:
-            dv0, dv1 = exact.pval(d0, s), exact.pval(d1, s)
-            if dv0 == 0 or dv1 == 0:
+    def mr_feat(self, case, kind, e=None, **extra):
+        # the class of the offending ENTRY (not of the case), so that a matrix case shrinks to the entry
+        f = self.features(case, kind, **extra)
+        if e is not None:
+            f["entry_cls"] = e.get("cls", "small")
+        return f
+
+    def mr_close(self, got, want, scale, tol):
+        """|got_k - want_k| <= tol * scale_k: the error of a coefficient relative to the sum of the absolute
+        values of the products it is made of (a relative perturbation of the roots), so small coefficients
+        are compared as sharply as large ones"""
+        if len(got) != len(want):
+            return False
+        if len(scale) != len(want):                 # constructor normalisation (zero numerator)
+            scale = [max(F(1), max(abs(F(x)) for x in want))] * len(want)
+        return all(abs(F(a) - F(b)) <= tol * h for a, b, h in zip(got, want, scale))
+
+    def mr_values_differ(self, n0, d0, n1, d1, tol, extra_points=()):
+        """a rational point where the two fractions (exact coefficient lists) differ beyond `tol`,
+        relative; points where one of the four evaluations is ill conditioned are skipped"""
+        def ev(p, s):
+            v = exact.pval(p, s)
+            hat = sum((abs(c) * abs(s) ** (len(p) - 1 - k) for k, c in enumerate(p)), F(0))
+            return v, hat
+        for s in list(POINTS) + list(extra_points):
+            vals = [ev(p, s) for p in (n0, d0, n1, d1)]
+            (a0, _), (b0, _), (a1, _), (b1, _) = vals
+            if b0 == 0 or b1 == 0:
                 continue
-            v0, v1 = exact.pval(n0, s) / dv0, exact.pval(n1, s) / dv1
-            if abs(v0 - v1) > TOL_MR * 100 * max(1, abs(v0)):
-                return Verdict(VIOLATES, "transfer function changed: G(%s) = %s, minreal gives %s"
-                               % (s, float(v0), float(v1)), self.features(case, "value"))
-        return Verdict(DIFFERS, "degrees %d/%d, model %d/%d" % (len(n1) - 1, len(d1) - 1, len(b["num"]) - 1,
-                                                                len(b["den"]) - 1), self.features(case, "degree"))
+            # an evaluation that lost more than 3 digits to cancellation says nothing at this point
+            if any(abs(v) * 1000 < hat for (v, hat) in vals[1::2]) or \
+                    any(v != 0 and abs(v) * 1000 < hat for (v, hat) in vals[0::2]):
+                continue
+            v0, v1 = a0 / b0, a1 / b1
+            if abs(v0 - v1) > tol * max(abs(v0), abs(v1)):
+                return s, v0, v1
+        return None
+
+    def cmp_minreal(self, case, a, b):
+        ents = mr_entries(case)
+        if "shape" in a:
+            return Verdict(VIOLATES, "result has shape %s" % a["shape"], self.mr_feat(case, "shape"))
+        worst = None
+        for k, (e, ia, mb) in enumerate(zip(ents, a["entries"], b["entries"])):
+            zs, ps = mr_survivors([root_parts(t) for t in e["zeros"]], [root_parts(t) for t in e["poles"]])
+            n0, d0 = [F(x) for x in e["num"]], [F(x) for x in e["den"]]
+            cls = e.get("cls", "small")
+            tol = {"small": TOL_MR, "complex": TOL_MR, "repeated": TOL_MR_REP}.get(cls, TOL_MR_WIDE)
+            if self.mr_close(ia["num"], mb["num"], abs_poly(zs, n0[0] / d0[0]), tol) and \
+                    self.mr_close(ia["den"], mb["den"], abs_poly(ps, 1), tol):
+                continue
+            # the property itself: is the returned entry the same rational function as the original one?
+            n1, d1 = [F(x) for x in ia["num"]], [F(x) for x in ia["den"]]
+            where = "" if len(ents) == 1 else "entry [%d,%d]: " % (k // case["m"], k % case["m"])
+            dn, dd = len(n1) - len(mb["num"]), len(d1) - len(mb["den"])
+            kind = "degree" if (dn or dd) else "value"
+            extra = {}
+            if kind == "degree":
+                extra["cancelled"] = "more" if (dn < 0 or dd < 0) else "fewer"
+            # besides the fixed points: points on the scale of every root of the entry (a factor that is
+            # wrongly cancelled between roots of size 1e-6 is invisible at |s| ~ 1)
+            mags = sorted(set(abs(x) + abs(y) for t in e["zeros"] + e["poles"] for (x, y) in [root_parts(t)]
+                              if (x, y) != (0, 0)))
+            near = [c * m_ for m_ in mags for c in (F(3, 2), F(-3, 2), F(5, 8), F(-5, 8), F(17, 16), F(-17, 16))]
+            hit = self.mr_values_differ(n0, d0, n1, d1, tol * 100, near)
+            if hit is not None:
+                s_, v0, v1 = hit
+                return Verdict(VIOLATES, "%stransfer function changed: G(%s) = %.12g, minreal gives %.12g "
+                               "(orders %d/%d -> %d/%d, common factors %d)"
+                               % (where, s_, float(v0), float(v1), len(n0) - 1, len(d0) - 1, len(n1) - 1,
+                                  len(d1) - 1, e["ncommon"]), self.mr_feat(case, kind, e, **extra))
+            if worst is None:
+                worst = Verdict(DIFFERS, "%sorders %d/%d, model %d/%d; same values at the test points"
+                                % (where, len(n1) - 1, len(d1) - 1, len(mb["num"]) - 1, len(mb["den"]) - 1),
+                                self.mr_feat(case, kind, e, **extra))
+        if worst is not None:
+            return worst
+        if a.get("dt") != case["dt"]:
+            return Verdict(VIOLATES, "timebase changed", self.mr_feat(case, "dt"))
+        return Verdict(AGREE)
 
     # ---- evidence ---------------------------------------------------------------
     def nontrivial(self, case, model):
         if "ok" not in model:
             return False
         if case["op"] == "minreal":
-            return case["ncommon"] > 0
+            return any(e["ncommon"] > 0 for e in mr_entries(case))
         return model["ok"]["n"] > 0
 
     def stats(self, case, impl, model):
@@ -893,13 +1228,66 @@ class C15(Family):
             if "ok" in model:
                 st["red.kept_states"] = "%d/%d" % (model["ok"]["n"], case["sys"]["n"])
         else:
-            st["minreal.common"] = case["ncommon"]
+            ents = mr_entries(case)
+            st["minreal.common"] = sum(e["ncommon"] for e in ents)
+            st["minreal.class"] = case.get("cls", "small")
+            st["minreal.shape"] = "%dx%d" % (case.get("p", 1), case.get("m", 1))
+            st["minreal.tol"] = case["tol"] or "default"
+            mags = [abs(a) + abs(b) for e in ents for (a, b) in map(root_parts, e["zeros"] + e["poles"])
+                    if (a, b) != (0, 0)]
+            if mags:        # spread of the root magnitudes inside the case, in powers of two
+                st["minreal.log2_spread"] = 4 * (int(np.log2(float(max(mags) / min(mags)))) // 4)
         if "err" in model and "err" in impl:
             st["errkind_equal"] = impl["err"] == model["err"]
         return st
 
     # ---- shrinking / search --------------------------------------------------------
+    def shrink_minreal(self, case):
+        ents = mr_entries(case)
+        base = {"op": "minreal", "tol": case["tol"], "dt": case["dt"]}
+        if len(ents) > 1:       # a single entry of the matrix
+            for e in ents:
+                yield dict(base, p=1, m=1, entries=[e], cls=e.get("cls", "small"))
+            return
+        e = ents[0]
+        if case["dt"] != "C":
+            yield dict(case, dt="C")
+        zs, ps = [root_parts(t) for t in e["zeros"]], [root_parts(t) for t in e["poles"]]
+        g, d0 = F(e["num"][0]), F(e["den"][0])
+        cands = []
+        for r in sorted(set(zs + ps), key=lambda r: -abs(r[0]) - abs(r[1])):
+            if r[1] < 0:
+                continue
+            pair = [r, (r[0], -r[1])] if r[1] else [r]
+            for (dz, dp) in ((1, 1), (1, 0), (0, 1)):       # drop a common factor, a zero, a pole
+                z2, p2 = list(zs), list(ps)
+                try:
+                    for q in pair:
+                        if dz:
+                            z2.remove(q)
+                        if dp:
+                            p2.remove(q)
+                except ValueError:
+                    continue
+                cands.append((z2, p2))
+        for (z2, p2) in cands:
+            num, den = cpoly(z2, g if g != 0 else 0), cpoly(p2, d0)
+            if num is None or den is None or g == 0 or not (float_exact(num) and float_exact(den)):
+                continue
+            if not mr_separated(z2, p2, case["tol"]):
+                continue
+            e2 = dict(e, num=toks(num), den=toks(den), zeros=[root_tok(*z) for z in z2],
+                      poles=[root_tok(*q) for q in p2], ncommon=len(z2) - len(mr_survivors(z2, p2)[0]))
+            yield dict(base, p=1, m=1, entries=[e2], cls=case.get("cls", "small"))
+        if g not in (0, 1) or d0 != 1:
+            num, den = cpoly(zs, 1), cpoly(ps, 1)
+            if num is not None and den is not None and float_exact(num) and float_exact(den):
+                yield dict(base, p=1, m=1, entries=[dict(e, num=toks(num), den=toks(den))],
+                           cls=case.get("cls", "small"))
+
     def shrink(self, case):
+        if case["op"] == "minreal":
+            yield from self.shrink_minreal(case)
         if case["op"] == "red":
             k = case["keys"]
             for x in ("ei", "ki", "eo", "ko", "es", "ks"):
@@ -919,7 +1307,9 @@ class C15(Family):
                 yield dict(case, c="1")
 
     def search(self, rng, case, tier):
-        gen = {"sim": self.gen_sim, "canon": self.gen_canon, "red": self.gen_red, "minreal": self.gen_minreal}[case["op"]]
+        if case["op"] == "minreal":
+            return [self.gen_minreal(rng, case.get("cls")) for _ in range(300)]
+        gen = {"sim": self.gen_sim, "canon": self.gen_canon, "red": self.gen_red}[case["op"]]
         return [gen(rng) for _ in range(300)]
 
 
